@@ -417,22 +417,25 @@ def compare(case, impl, model):
 
 
 def refetch_loads(case, impl):
-    """did resolveImports' re-request of a kept nested import go to ANOTHER url than the one the import was resolved to
-    when it was parsed, and is that URL served with content?  (then the re-request loads something)"""
+    """does a re-request that resolveImports makes for a kept nested import reach content?  Only possible when the import
+    is re-resolved in the context of the flattened sheet instead of its own sheet: ANOTHER url than at parse time, or the
+    same URL that was refused at parse time because it is in the import chain (the flattened sheet has no chain)"""
     from css_parser.util import urljoin
     same = set()
 
-    def walk(rules, base):
+    def walk(rules, base, chain):
         for r in rules:
             if r[0] == "import":
                 if not r[3]:
                     try:
-                        same.add(urljoin(base, r[1]))
+                        u = urljoin(base, r[1])
+                        if u not in chain:          # (refused by the cycle guard: not a fetch failure)
+                            same.add(u)
                     except ValueError:
                         pass
                 elif r[4]:
-                    walk(r[5], r[4])
-    walk(impl.get("rules", []), impl.get("href") or cwd_url())
+                    walk(r[5], r[4], chain + [r[4]])
+    walk(impl.get("rules", []), impl.get("href") or cwd_url(), [impl.get("href")])
     for u in impl.get("resolve_calls", []):
         bl = case["table"].get(u)
         if u not in same and bl and any(b[0] in ("text", "bytes") for b in bl):
@@ -632,7 +635,8 @@ def oracle(case, impl):
         sig += " raising=%s" % bool(case.get("raising", True))
         if isinstance(res, str) and rebased:
             # consequence of a re-request at a wrong URL that is served (it loads something, with exceptions enabled)
-            out.append(("resolveImports re-requested a kept nested @import at another URL and raised %s" % res[4:],
+            out.append(("resolveImports re-requested a kept nested @import in the context of the flattened sheet "
+                        "(other base URL, import chain forgotten), loaded it and raised %s" % res[4:],
                         sig + " resolve-rebase"))
         elif isinstance(res, str):
             out.append(("resolveImports raised %s" % res[4:], sig + " resolve"))
